@@ -9,6 +9,7 @@ import (
 	"sort"
 	"strings"
 
+	"github.com/elastos/Elastos.ELA/core/checkpoint"
 	common2 "github.com/elastos/Elastos.ELA/core/types/common"
 )
 
@@ -34,6 +35,10 @@ type savedCkpt struct {
 	files map[string][]byte
 	ext   map[string]string
 	view  *view // the saving node's state at the moment of the save
+	// the manager hands the snapshots to its file goroutine, which serialises
+	// them later: up to `delay` further blocks are processed first
+	snaps map[string]checkpoint.ICheckPoint
+	delay int
 }
 
 // stepCkpt: the save the manager makes at a save height, at the current tip.
@@ -48,7 +53,7 @@ func (r *run) stepCkpt(s *Step) {
 		c.Probe("checkpoint-skipped/instance-went-through-a-rollback-or-seek")
 		return
 	}
-	sv := &savedCkpt{h: h, files: map[string][]byte{}, ext: map[string]string{}}
+	sv := &savedCkpt{h: h, files: map[string][]byte{}, ext: map[string]string{}, snaps: map[string]checkpoint.ICheckPoint{}, delay: mod(s.D, 3)}
 	for _, key := range ckpKeys {
 		cp, ok := in.ckp.GetCheckpoint(key, math.MaxUint32)
 		if !ok || cp == nil {
@@ -62,7 +67,6 @@ func (r *run) stepCkpt(s *Step) {
 		// Manager.onBlockSaved: v.SetHeight(block.Height); snapshot := v.Snapshot();
 		// the file goroutine then serialises the snapshot. The live object's
 		// height is put back: the next real save would be 720 blocks away.
-		var data []byte
 		var failed string
 		func() {
 			defer func() {
@@ -78,12 +82,7 @@ func (r *run) stepCkpt(s *Step) {
 				failed = "Snapshot returned nil"
 				return
 			}
-			buf := new(bytes.Buffer)
-			if err := snap.Serialize(buf); err != nil {
-				failed = "Serialize: " + err.Error()
-				return
-			}
-			data = buf.Bytes()
+			sv.snaps[key] = snap
 		}()
 		c.Check()
 		if failed != "" {
@@ -91,13 +90,62 @@ func (r *run) stepCkpt(s *Step) {
 				"height %d: the %s checkpoint could not be saved: %s", h, key, failed)
 			return
 		}
-		sv.files[key] = data
 		sv.ext[key] = cp.DataExtension()
 	}
 	sv.view = in.takeView()
 	r.saved = sv
 	c.Probe("checkpoint-saved")
-	c.Logf("K %d cr=%dB dpos=%dB", h, len(sv.files["cp_cr"]), len(sv.files["cp_dpos"]))
+	c.Logf("K %d write-after=%d", h, sv.delay)
+	if sv.delay == 0 {
+		r.flushCkpt()
+	}
+}
+
+// flushCkpt is the file goroutine getting round to its job: the snapshots
+// taken at the save are serialised now.
+func (r *run) flushCkpt() {
+	sv := r.saved
+	if sv == nil || sv.snaps == nil {
+		return
+	}
+	for _, key := range ckpKeys {
+		var failed string
+		func() {
+			defer func() {
+				if p := recover(); p != nil {
+					failed = "panic: " + short(fmt.Sprint(p))
+				}
+			}()
+			buf := new(bytes.Buffer)
+			if err := sv.snaps[key].Serialize(buf); err != nil {
+				failed = "Serialize: " + err.Error()
+				return
+			}
+			sv.files[key] = buf.Bytes()
+		}()
+		r.c.Check()
+		if failed != "" {
+			r.c.Violate("C23", "dpos-restart", "C23/dpos-restart/"+key+"/snapshot-failed",
+				"the %s checkpoint taken at height %d could not be written: %s", key, sv.h, failed)
+			r.saved = nil
+			return
+		}
+	}
+	if r.height() > sv.h {
+		r.c.Probe("checkpoint-written-after-further-blocks")
+	}
+	sv.snaps = nil
+	r.c.Logf("W %d at=%d cr=%dB dpos=%dB", sv.h, r.height(), len(sv.files["cp_cr"]), len(sv.files["cp_dpos"]))
+}
+
+// ckptTick: one more block has been processed since the save.
+func (r *run) ckptTick() {
+	if sv := r.saved; sv != nil && sv.snaps != nil {
+		sv.delay--
+		if sv.delay <= 0 {
+			r.flushCkpt()
+		}
+	}
 }
 
 // stepRestart: the node stops (s.Mode: 0 clean; 1 the DPoS file torn; 2 the CR
@@ -114,6 +162,7 @@ func (r *run) stepRestart(s *Step) {
 		return
 	}
 	mode := mod(s.Mode, 5)
+	r.flushCkpt() // a stopping node lets the pending save complete
 	sv := r.saved
 	if sv == nil && mode != 4 {
 		c.Probe("restart-skipped/no-checkpoint-saved")
